@@ -201,6 +201,31 @@ func descriptorShapes() []shapeCase {
 			return f
 		})
 	}
+	// identifier spellings protoc accepts but examples never use: underscores at the ends, doubled, next to digits,
+	// a lone letter — as the name of a plain oneof, of a discriminated oneof (nested and flattened), and of the
+	// fields next to it (the generators derive Go/TypeScript/schema names from these by splitting at underscores)
+	for _, nm := range []string{"content_", "_content", "pay__load", "a", "x_1", "v2_", "kind__"} {
+		nm := nm
+		for _, via := range []string{"oneof", "disc-oneof", "disc-oneof-flatten", "field"} {
+			via := via
+			mk("ident-spelling/"+via+"/"+nm, func(pkg string) *spec.File {
+				text := &spec.Message{Name: "TextPart", Fields: []*spec.Field{spec.F("text", 1, spec.String)}}
+				img := &spec.Message{Name: "ImagePart", Fields: []*spec.Field{spec.F("url", 1, spec.String)}}
+				m := &spec.Message{Name: "Holder"}
+				switch via {
+				case "field":
+					m.Fields = []*spec.Field{spec.F(nm, 1, spec.String), spec.FM(nm+"m", 2, "."+pkg+".TextPart"), spec.F("r"+nm, 3, spec.Int64).Rep()}
+				case "oneof":
+					m.Oneofs = []*spec.Oneof{{Name: nm}}
+					m.Fields = []*spec.Field{spec.F("tag", 1, spec.String), spec.FM("text_part", 2, "."+pkg+".TextPart").In(1), spec.FM("image_part", 3, "."+pkg+".ImagePart").In(1)}
+				default:
+					m.Oneofs = []*spec.Oneof{{Name: nm, HasConfig: true, Discriminator: "type", Flatten: via == "disc-oneof-flatten"}}
+					m.Fields = []*spec.Field{spec.F("tag", 1, spec.String), spec.FM("text_part", 2, "."+pkg+".TextPart").In(1), spec.FM("image_part", 3, "."+pkg+".ImagePart").In(1)}
+				}
+				return &spec.File{Messages: []*spec.Message{text, img, m}, Services: []*spec.Service{svcFor(pkg, "Holder", "Holder")}}
+			})
+		}
+	}
 	// message names that coincide with names the generators use themselves (built-in OpenAPI components, emitted
 	// TypeScript and Go declarations, JavaScript globals), as request/response, as a field type and nested
 	for _, tn := range []string{"Error", "ValidationError", "FieldViolation", "ApiError", "Timestamp", "Empty", "Any", "Object", "Record", "Response", "Request", "Headers", "Date", "Map", "Promise", "Client", "Server", "Options", "Item_text"} {
